@@ -1,4 +1,5 @@
 import PseudoModel.Ast
+import PseudoModel.FloatFmt
 namespace Pseudo
 
 structure PState where
@@ -59,14 +60,8 @@ def realLitRat (s : Str) : Nat × Nat :=
   let fp := (s.dropWhile (· != '.')).drop 1
   (digitsVal (ip ++ fp), fp.length)
 
-/-- is the real literal representable without `ERANGE` (what `std::stod` accepts):
-    not rounding to infinity, and not a non-zero value below the normal range. -/
-def realLitInRange (s : Str) : Bool :=
-  let (n, k) := realLitRat s
-  -- overflow threshold: 2^1024 - 2^970 (halfway between DBL_MAX and 2^1024)
-  let over := decide (n ≥ (2 ^ 1024 - 2 ^ 970) * 10 ^ k)
-  let under := decide (n ≠ 0) && decide (n * 2 ^ 1022 < 10 ^ k)
-  !over && !under
+/-- is the real literal representable without `ERANGE` (what `std::stod` accepts) -/
+def realLitInRange (s : Str) : Bool := !(FloatFmt.strtod s).2.2
 
 def levelOp (k : Nat) (t : TK) : Option (Tok → Expr → Expr → Expr) :=
   match k, t with
